@@ -214,6 +214,9 @@ def compute_bounded(sess: Session):
 
 
 def run(sess: Session):
+    sess.level = 'exploration'
+    sess.explanation = ('deductive obligations for probability/IC/_initialize; bounded stand-in (exhaustive small-scope '
+                        'enumeration on the real functions) for compute() and load()')
     sess.assume('A-FLOAT', 'A-ENGINE', 'A-MATH')
     sess.trust('floats as reals, log strictly increasing (A-FLOAT)', 'vc/pyvc')
     for part, fn in (('probability', probability_obligations), ('initialize', initialize_obligations)):
